@@ -769,24 +769,38 @@ class VC(object):
         self.run.expr_hooks.setdefault(_fkey(obj), []).append((re.compile(regex), handler))
 
     def exec_slices(self, target, regex, local_vars):
-        """As exec_slice, for EVERY top-level statement of `target` whose source text matches `regex`, in source order, in one frame."""
-        import ast, re
+        """As exec_slice, for EVERY top-level statement of `target` whose source text matches `regex`, in source order, in one frame - together with
+        the earlier top-level statements that define a local name one of them reads (backward slice on local names, to a fixpoint), so that a
+        condition or value given a name of its own first is still part of what is executed."""
+        import ast, re, builtins
         from .interp import resolve, get_func_ast, Interp, Frame, _guess_defcls
         fn = resolve(target) if isinstance(target, str) else target
         fn = getattr(fn, '__func__', fn)
         node, path, src = get_func_ast(fn)
         pat = re.compile(regex, re.S)
+        body = list(node.body)
+        loads = [{n.id for n in ast.walk(st) if isinstance(n, ast.Name) and isinstance(n.ctx, ast.Load)} for st in body]
+        stores = [{n.id for n in ast.walk(st) if isinstance(n, ast.Name) and isinstance(n.ctx, (ast.Store, ast.Del))} for st in body]
+        chosen = {i for i, st in enumerate(body) if pat.search(ast.unparse(st))}
+        if not chosen:
+            raise Undecided('no statement of %s matches %r' % (target, regex))
+        given = set(local_vars) | set(fn.__globals__) | set(dir(builtins))
+        while True:
+            more = set()
+            for i in chosen:
+                need = loads[i] - given
+                for j in range(i):
+                    if j not in chosen and stores[j] & need:
+                        more.add(j)
+            if not more:
+                break
+            chosen |= more
         frame = Frame(fn.__globals__, defcls=_guess_defcls(fn), fkey=_fkey(fn), fname=fn.__qualname__)
         frame.locals.update(local_vars)
-        n = 0
-        for st in node.body:
-            if pat.search(ast.unparse(st)):
-                Interp(self.ctx, frame).exec(st)
-                n += 1
-        if not n:
-            raise Undecided('no statement of %s matches %r' % (target, regex))
+        for i in sorted(chosen):
+            Interp(self.ctx, frame).exec(body[i])
         if isinstance(target, str):
-            self.run.functions.setdefault(target, {'role': 'slices: ' + regex})
+            self.run.functions.setdefault(target, {'role': 'slices: %s (+ the definitions of the locals they read); %d of %d top-level statements' % (regex, len(chosen), len(body))})
         return frame.locals
 
     def exec_slice(self, target, regex, local_vars):
